@@ -215,7 +215,11 @@ old link's entry still awaits the peer's detach — a frame is handed to the end
 attach accepted on its handle and refused as unattached when there is none; `one_handle_per_endpoint`
 (by an invariant over the three tables) says two handles of the peer never lead to one endpoint.
 `Theorems/C11T.lean` adds the channel side from the slab-and-bound model of C17 (`channels_unique`,
-`channel_reused_only_after_end`). `Theorems/TransferFits.lean` removes two of the four hypotheses the
+`channel_reused_only_after_end`), and `Amqp/ChanRouting.lean` is the connection's pair of tables (the
+slab of our channels under the generated channel-max condition, the relay stored in each slot, the map
+from the peer's channels) with the same refinement (`frames_reach_the_session_of_their_channel`) and
+an invariant tying the relays to the live slots (`one_channel_per_session`: a begin answered with
+`remote-channel = c` reaches the session that holds `c` now, not one that held it before). `Theorems/TransferFits.lean` removes two of the four hypotheses the
 frame-cutting theorems of C06 made about the transfer performative's encodings: from the typed model,
 for every field content, writing the performative with `more := true` never yields fewer bytes
 (`flag_never_shortens`, for any Boolean field with default `false` of any composite: the interplay of
@@ -283,7 +287,9 @@ and `SliceReader` against `Amqp.IoRead`), `lsender` (a sending link accepted by 
 flows pipelined behind the peer's attach and buffered until the application accepts the link, then
 further grants; the transfers on the wire against the latest flow and against `Amqp.Credit`), routing
 histories in `ids` (attach / close by either side / transfer / a frame on a detached handle, the peer
-re-using handles from a small pool; every step against `Amqp.Routing`), and in the existing modules:
+re-using handles from a small pool; every step against `Amqp.Routing`; the same one level up: begin /
+end by either side / delivery / a frame on an ended channel across three sessions, against
+`Amqp.ChanRouting`), and in the existing modules:
 `to_value` / `from_value` as the identity on every generated untyped value, valid variants read from
 a stream and variants with bodies beyond 64 KiB (`specenc`), deliveries cut by the link with one credit
 granted per delivery (`credit`), sender-settled deliveries and acknowledgement in batches in the
@@ -343,6 +349,25 @@ right; the machinery was corrected, nothing was added to the known findings, no 
 * C03 / codec (second session): bodies of 64 KiB and more were first mixed into the random lengths;
   the model's lines grew to hundreds of kilobytes and the quick tier to minutes. They are now a
   small deterministic block judged on the implementation only.
+* C20 / codec (third session): the new `from_value::<Value>(v) = v` check fired on the unchanged tree
+  for every list, map and array and for symbols, timestamps, decimals and uuids. That one was not a
+  false alarm: the replay on the implementation showed `from_value` refusing or changing those values
+  (fix 2035748); only described values remain refused (recorded finding).
+* C13 / life (third session, before it was committed): with unread deliveries queued ahead of the
+  peer's detach, a `recv` hands out a delivery and cannot see the detach behind it; the rule "the
+  peer's detach is answered by the application's next operation on the link" now skips the `recv`
+  calls that consume the queued deliveries.
+* C14 / life: read for C14, the lifecycle runs reported the stray second detach of the recorded C13
+  finding — a violation of C13, not of C14. The C14 view keeps what C14 states (a call that never
+  returns; the peer's error not reported) and leaves the rest to C13.
+* C11 / ids: in the routing histories a close by the peer without an error makes the application's
+  own `close()` return Ok, not an error; the observation "the endpoint saw the peer's detach" is now
+  "its answering detach carries that endpoint's output handle".
+* Seeded round 3, a lesson about the machinery rather than a check: two changes (C08-c1, C05-c1 on its
+  first try) were first recorded as caught because the harness did not build / a new check was
+  red on the unchanged tree — I was editing `/verif` while the queue that tries the changes was
+  running in it. Both were re-tried on a quiet tree (C08-c1 turned out to be missed and got its own
+  check); since then new checks are developed in copies outside `/verif` and copied in between runs.
 
 ## 11. Trusted base
 
@@ -493,6 +518,14 @@ def section9():
                "`/repo` (nothing from `/verif`), asked to break the property while the code still compiles and the existing tests "
                "pass, and to demonstrate the break. Each was confirmed, then applied to `/repo` (`git apply`), checked with the "
                "quick tier, and undone. `how` says which part of the check fired.\n")
+    n3 = len([j for j in rows if re.search(r"-c\d$", j.get("id", ""))])
+    m3 = len([j for j in rows if re.search(r"-c\d$", j.get("id", "")) and j.get("note")])
+    out.append(f"Three rounds of two changes per property: ids `Cxx-1/2` (first session), `Cxx-b1/b2` (second), `Cxx-c1/c2` (third). From the "
+               f"second round on the agents were shown one-line summaries of the earlier changes for their property and told to aim at other "
+               f"functions, mechanisms and clauses of the statement; the third round ({n3} changes) was accordingly the hardest for the checks: "
+               f"{m3} were missed when first tried (listener-side paths, resumption, streams instead of slices, two ends configured "
+               f"differently, siblings instead of depth, a peer that keeps talking), every one of which led to a new scenario, a new model or a new theorem "
+               f"listed below.\n")
     out += ["| id | property | the change | caught by quick | how | caught by other checks |", "|---|---|---|---|---|---|"]
     for j in rows:
         summ = j.get('summary', '').replace('|', '/')
